@@ -4,6 +4,19 @@ NOTES = "All checks: ./check <id> --tier quick|thorough. Lean theorems are about
 NOTE = ("theorem about a hand-written Lean model; tied to /repo's working tree by the differential correspondence run of the same check "
         "(its reach is its generators' reach); Lean kernel + propext/Classical.choice/Quot.sound only; harness + cfg(redb_verif) hooks trusted")
 CLAIMED = {
+    "C04": {
+        "text": "Lean theorems: the specification Spec (strictly sorted association list under the key comparator) satisfies the sorted-map laws "
+                "for every comparator with CmpLaws (proved for all built-in key types in C15), every map, key and value: insert/remove keep "
+                "sortedness, get-after-insert/remove, returned old values, len bookkeeping, first/last are min/max, range/retain are sorted "
+                "sublists, extract_if removes exactly what it yields; and any well-formed B+tree (the conditions checked on committed images) "
+                "answers lookups exactly as its sorted entry list. The real Table API (every operation named in the property, three key "
+                "families, values 0..5 pages, page sizes 512..16384, cache 0.., several transactions, abort, reopen) is compared answer by "
+                "answer and by committed contents with Spec executed by the Lean driver; a sorted-vector oracle ordered by the "
+                "implementation's own compare evaluates the property without the model.",
+        "note": NOTE + "; the B-tree mutators (split/merge policy of btree_mutator.rs) are not yet modelled in Lean: that the real mutators refine Spec rests on the correspondence run, not on a theorem",
+        "technique": "Lean 4 proof (spec laws, B+tree routing refinement) + differential correspondence against the real Table API",
+        "design_ref": "DESIGN.md §6 C04",
+    },
     "C15": {
         "text": "Lean theorems over ALL key-type descriptors (nested arbitrarily) and all valid encodings: the comparator is a total preorder "
                 "respecting equality (pairs and triples), the separator of a<b is a valid encoding s with a<=s<b and len(s)<=len(a), branch "
